@@ -129,7 +129,7 @@ func applyOp(op string, a, b ref.Dec) modelOut {
 
 func (e *AExpr) model() modelOut {
 	if e.Op == "" {
-		d, ok := ref.ParseDec(e.Lit)
+		d, ok := ref.ParseDec(strings.ReplaceAll(e.Lit, "_", "")) // single underscores between digits are separators
 		if !ok {
 			return modelOut{Skip: "bad literal " + e.Lit}
 		}
@@ -450,6 +450,18 @@ func spell(r *rand.Rand, neg bool, dig string, exp int) string {
 		if s[1] == '.' {
 			s = s[1:]
 		}
+	}
+	if r.Intn(5) == 0 {
+		// digit separators: a single underscore between two digits of one digit group (coefficient, fraction or exponent)
+		b := []byte(s)
+		var out []byte
+		for i, ch := range b {
+			out = append(out, ch)
+			if i+1 < len(b) && ch >= '0' && ch <= '9' && b[i+1] >= '0' && b[i+1] <= '9' && r.Intn(3) == 0 {
+				out = append(out, '_')
+			}
+		}
+		s = string(out)
 	}
 	if neg {
 		s = "-" + s
